@@ -189,3 +189,113 @@ Proof.
       destruct (4 <=? e_ver (wc_enc cx)); cbn [FS.form_value] in Hv; injection Hv as <-; reflexivity. }
     repeat (split; [assumption|]). reflexivity.
 Qed.
+
+(* ------------------------------------------------------------------ (1c) the forward-reference error *)
+
+Lemma sum_sizes_app dbg szf : forall a acc b,
+  OW.sum_sizes dbg szf acc (a ++ b) = (let* x := OW.sum_sizes dbg szf acc a in OW.sum_sizes dbg szf x b).
+Proof.
+  induction a as [|o r IH]; intros acc b; cbn [app].
+  - rewrite OP.sum_sizes_nil. reflexivity.
+  - rewrite !OP.sum_sizes_cons. destruct (szf o) as [s| | |]; cbn [bind]; try reflexivity.
+    destruct (OW.uadd dbg acc s) as [a'| | |]; cbn [bind]; try reflexivity. apply IH.
+Qed.
+
+(* calculate_offsets reaches an Exprloc whose expression embeds, ULEB-encoded (typed operations, convert,
+   reinterpret — not the fixed-width call / parameter_ref), the unit offset of an entry that has no offset yet
+   in the table built so far (a later entry, or one that is not in the tree): AttributeValue::size fails with
+   UnsupportedExpressionForwardReference — the operations before it being sizable — and nothing is written *)
+Theorem exprloc_forward_ref_lemma dbg e be lpv uo pre o post en n :
+  OD.uses_entry o = Some en -> OW.wf_op o = true ->
+  match o with OW.WoCall _ | OW.WoParameterRef _ => False | _ => True end ->
+  OW.nth_N (OW.uo_entries uo) en = Some 0 ->
+  OW.size_expr dbg (oenc e be) (Some uo) pre = Ok n ->
+  gav_size dbg e be lpv uo (GExpr (pre ++ o :: post)) = Err WUnsupportedExpressionForwardReference.
+Proof.
+  intros Hu Hwf Hk Hz Hp.
+  assert (He : OW.entry_offset dbg (Some uo) en = Err WUnsupportedExpressionForwardReference).
+  { rewrite OD.entry_offset_cases, Hz. reflexivity. }
+  destruct (OD.typed_ref_needs_offset dbg (oenc e be) (Some uo) true [] 0 o en _ Hu Hwf He) as [_ Hs].
+  assert (Hs' : OW.size_op dbg (oenc e be) (Some uo) o = Err WUnsupportedExpressionForwardReference).
+  { destruct o; try exact Hs; contradiction. }
+  assert (Hx : OW.size_expr dbg (oenc e be) (Some uo) (pre ++ o :: post) = Err WUnsupportedExpressionForwardReference).
+  { unfold OW.size_expr in *. rewrite sum_sizes_app, Hp. cbn [bind]. rewrite OP.sum_sizes_cons, Hs'. reflexivity. }
+  unfold gav_size, inst, av_size. cbn [x_size]. rewrite Hx.
+  unfold assert_form, dassert. cbn [av_form fst]. destruct (4 <=? e_ver e); rewrite N.eqb_refl; destruct dbg; reflexivity.
+Qed.
+
+(* ================================================================== (2) RangeListRef / LocationListRef *)
+
+Module LR := GV.Model.ListsRd.
+Module LW := GV.Model.ListsWr.
+
+(* the values Dwarf::attr_ranges_offset / attr_locations_offset distinguish, from Attribute::value() *)
+Definition lrd_aval (v : FS.attr_value) : LR.aval :=
+  match v with
+  | FS.VRangeListsRef o => LR.AvRangesRef o
+  | FS.VDebugRngListsIndex i => LR.AvRnglistx i
+  | FS.VLocationListsRef o => LR.AvLocRef o
+  | FS.VDebugLocListsIndex i => LR.AvLoclistx i
+  | FS.VAddr a => LR.AvAddr a
+  | FS.VDebugAddrIndex i => LR.AvAddrx i
+  | FS.VUdata n => LR.AvUdata n
+  | _ => LR.AvOther
+  end.
+
+Definition DW_AT_location : N := 2.
+Definition DW_AT_ranges : N := 85.
+
+Definition list_ref (isloc : bool) (i : nat) : aval := if isloc then AvLocationListRef i else AvRangeListRef i.
+Definition list_offs (isloc : bool) (cx : wcx) : list N := if isloc then wc_loc cx else wc_rng cx.
+Definition list_at (isloc : bool) : N := if isloc then DW_AT_location else DW_AT_ranges.
+
+(* DW_AT_ranges = RangeListRef(id) / DW_AT_location = LocationListRef(id): the attribute reader model, under the
+   specification the writer stores (sec_offset; data4/data8 in DWARF 2/3), reads back a section offset that
+   Attribute::value() turns into RangeListsRef(o) / LocationListsRef(o) with o = offsets.get(id): the number
+   the list writer returned for that list *)
+Theorem list_ref_attr_read_lemma dbg dbg' cx (isloc : bool) i ops rest :
+  av_write dbg cx (list_ref isloc i) = Ok ops ->
+  (forall o, nth_error (list_offs isloc cx) i = Some o -> o < 2 ^ 64) ->
+  AttrProofs.addr_size_ok (renc cx) ->
+  exists o val,
+    nth_error (list_offs isloc cx) i = Some o /\
+    AT.parse_attribute dbg' (renc cx)
+       (AT.mkSpec (list_at isloc) (fst (av_form (wc_enc cx) (list_ref isloc i))) 0) (ops_bytes ops ++ rest) = Ok (val, rest) /\
+    AT.attr_normalise (list_at isloc) val = (if isloc then FS.VLocationListsRef o else FS.VRangeListsRef o) /\
+    lrd_aval (AT.attr_normalise (list_at isloc) val) = (if isloc then LR.AvLocRef o else LR.AvRangesRef o).
+Proof.
+  intros W Hb HA.
+  assert (Hw : exists o b, nth_error (list_offs isloc cx) i = Some o /\ write_udata (wc_be cx) o (wsz (wc_enc cx)) = Ok b /\ ops = [WB b]).
+  { destruct isloc; cbn [list_ref list_offs] in *; unfold av_write in W;
+      apply bind_ok_inv in W; destruct W as [_ [_ W]];
+      apply bind_ok_inv in W; destruct W as [o [Eo W]];
+      apply bind_ok_inv in W; destruct W as [b [Eb W]]; injection W as <-;
+      unfold idx_get, unwrap in Eo.
+    - destruct (nth_error (wc_loc cx) i) as [o'|]; [|discriminate]. injection Eo as ->. eauto.
+    - destruct (nth_error (wc_rng cx) i) as [o'|]; [|discriminate]. injection Eo as ->. eauto. }
+  destruct Hw as [o [b [Eo [Eb ->]]]].
+  assert (Hf : fits o (wsz (wc_enc cx)) = None).
+  { assert (F := write_udata_fits (wc_be cx) o (wsz (wc_enc cx))). destruct (fits o (wsz (wc_enc cx))); [congruence|reflexivity]. }
+  destruct (attr_read_by_reader_lemma dbg dbg' cx (fun _ => zeros (wsz (wc_enc cx))) (list_at isloc) (list_ref isloc i) [WB b] rest W)
+    as [val [Hp [Hv _]]].
+  - destruct isloc; exact I.
+  - destruct isloc; cbn [list_ref av_typed list_offs] in *; eauto.
+  - destruct isloc; cbn [list_ref av_ranges list_offs] in *; unfold nth0; rewrite Eo; apply Hb; exact Eo.
+  - intros _. apply zeros_blen.
+  - exact HA.
+  - exists o, val. split; [exact Eo|].
+    assert (Er : ops_resolved (fun _ => zeros (wsz (wc_enc cx))) [WB b] = ops_bytes [WB b]) by reflexivity.
+    rewrite Er in Hp.
+    assert (Hic : ic_of (snd (av_form (wc_enc cx) (list_ref isloc i))) = 0%Z) by (destruct isloc; reflexivity).
+    rewrite Hic in Hp, Hv. split; [exact Hp|].
+    assert (Hval : val = FS.VSecOffset o).
+    { destruct isloc; cbn [list_ref list_at av_fd fst snd list_offs] in *; unfold nth0 in Hv; rewrite Eo in Hv;
+        unfold renc in Hv; destruct (wc_enc cx) as [ver fmt asz]; cbn [e_ver e_fmt64 e_asz] in Hv;
+        unfold DW_AT_location, DW_AT_ranges in Hv;
+        destruct ((ver =? 2) || (ver =? 3)) eqn:E23.
+      all: try (destruct fmt; cbn [FS.form_value FS.fmt64 FS.version negb andb] in Hv;
+                unfold FS.legacy_section_offset in Hv; cbn [existsb FS.legacy_pointer_names N.eqb Pos.eqb orb] in Hv;
+                injection Hv as <-; reflexivity).
+      all: cbn [FS.form_value] in Hv; injection Hv as <-; reflexivity. }
+    subst val. destruct isloc; split; reflexivity.
+Qed.
